@@ -146,4 +146,548 @@ theorem exec_restores_stack (env : Env) :
       simp only [exec]
       exact ih
 
+
+/-! ### every stack ever observed keeps the invariant (prefix / totality) -/
+
+/-- A predicate on stacks that survives every successful `__enter__`. -/
+def EnterClosed (Q : Stack → Prop) : Prop :=
+  ∀ (i : I) (s s' : Stack), Q s → enterI i s = .ok s' → Q s'
+
+theorem withObj_ok_fired {i : I} {s s1 : Stack} {body : Stack → IRes} (he : enterI i s = .ok s1) :
+    (withObj i s body).fired = (body s1).fired := by
+  unfold withObj
+  rw [he]
+  simp only []
+  cases pop? (body s1).stack <;> rfl
+
+theorem withObj_fired (Q : Stack → Prop) (hQ : EnterClosed Q) (i : I) (s : Stack) (body : Stack → IRes)
+    (hb : ∀ s1 h fs, Q s1 → (body s1).fired = some (h, fs) → Q fs) (hs : Q s) :
+    ∀ h fs, (withObj i s body).fired = some (h, fs) → Q fs := by
+  intro h fs hf
+  cases he : enterI i s with
+  | error e => simp [withObj, he] at hf
+  | ok s1 =>
+    rw [withObj_ok_fired he] at hf
+    exact hb s1 h fs (hQ i s s1 hs he) hf
+
+mutual
+/-- The stack seen by the rule that fires (inside the tape's / substitute's temporary pushes) keeps `Q`. -/
+theorem interp_fired_inv (Q : Stack → Prop) (hQ : EnterClosed Q) (env : Env) (k : K) (armed : Bool) :
+    ∀ (i : I) (s : Stack), Q s → ∀ h fs, (interp env k armed i s).fired = some (h, fs) → Q fs
+  | .reflect, s, hs, h, fs, hf => by
+      simp only [interp, Option.some.injEq, Prod.mk.injEq] at hf; rw [← hf.2]; exact hs
+  | .disp n, s, hs, h, fs, hf => by
+      simp only [interp] at hf
+      split at hf
+      · simp only [Option.some.injEq, Prod.mk.injEq] at hf; rw [← hf.2]; exact hs
+      · cases hf
+  | .prio _ l, s, hs, h, fs, hf => by
+      simp only [interp] at hf; exact interpList_fired_inv Q hQ env k armed l s hs h fs hf
+  | .memo b, s, hs, h, fs, hf => by
+      simp only [interp] at hf; exact interp_fired_inv Q hQ env k armed b s hs h fs hf
+  | .tape old, s, hs, h, fs, hf => by
+      have ih := interp_fired_inv Q hQ env k armed old
+      have h1 : ∀ h fs, (if env.adjointOp k = true then withObj old s (fun s1 => interp env k armed old s1)
+          else interp env k armed old s).fired = some (h, fs) → Q fs := by
+        intro h fs hf
+        split at hf
+        · exact withObj_fired Q hQ old s _ (fun s1 h fs q1 hf => ih s1 q1 h fs hf) hs h fs hf
+        · exact ih s hs h fs hf
+      simp only [interp] at hf
+      split at hf
+      · exact h1 h fs hf
+      · exact h1 h fs hf
+  | .subst live b, s, hs, h, fs, hf => by
+      have ih := interp_fired_inv Q hQ env k armed b
+      simp only [interp] at hf
+      refine withObj_fired Q hQ b s _ ?_ hs h fs hf
+      intro s1 h fs q1 hf
+      split at hf
+      · split at hf
+        · simp only [Option.some.injEq, Prod.mk.injEq] at hf
+          rw [← hf.2, interp_stack]; exact q1
+        · exact ih s1 q1 h fs hf
+      · exact ih s1 q1 h fs hf
+theorem interpList_fired_inv (Q : Stack → Prop) (hQ : EnterClosed Q) (env : Env) (k : K) (armed : Bool) :
+    ∀ (l : List I) (s : Stack), Q s → ∀ h fs, (interpList env k armed l s).fired = some (h, fs) → Q fs
+  | [], s, hs, h, fs, hf => by simp [interpList] at hf
+  | x :: xs, s, hs, h, fs, hf => by
+      simp only [interpList] at hf
+      split at hf
+      · rw [interp_stack] at hf
+        exact interpList_fired_inv Q hQ env k armed xs s hs h fs hf
+      · exact interp_fired_inv Q hQ env k armed x s hs h fs hf
+end
+
+theorem enter_closed {Q : Stack → Prop} (hQ : EnterClosed Q) {env : Env} {c : Ctx} {s s' : Stack}
+    (hs : Q s) (h : enter env c s = .ok s') : Q s' := by
+  unfold enter at h
+  split at h
+  · cases h
+  · next i _ => exact hQ i s s' hs h
+
+/-- Generic invariant: the log only grows, and every stack observed while the program runs
+    (at `obs`, and at the moment a rule fires) satisfies any enter-closed predicate that held at
+    the start. -/
+theorem exec_obs_invariant (Q : Stack → Prop) (hQ : EnterClosed Q) (env : Env) :
+    ∀ (p : Prog) (st : St), Q st.stack →
+      ∃ new, (exec env p st).2.log = new ++ st.log ∧ ∀ o ∈ new, Q o.stack
+  | .skip, st, _ => ⟨[], rfl, by simp⟩
+  | .obs, st, hs => ⟨[.at st.stack], rfl, by simpa [Obs.stack] using hs⟩
+  | .raise, st, _ => ⟨[], rfl, by simp⟩
+  | .probe k armed, st, hs => by
+      simp only [exec]
+      split
+      · exact ⟨[], rfl, by simp⟩
+      · next t _ =>
+        cases hf : (interp env k armed t st.stack).fired with
+        | none => exact ⟨[.probe k none st.stack], by simp, by simpa [Obs.stack] using hs⟩
+        | some hfs =>
+          obtain ⟨h, fs⟩ := hfs
+          refine ⟨[.probe k (some h) fs], by simp, ?_⟩
+          have := interp_fired_inv Q hQ env k armed t st.stack hs h fs hf
+          simpa [Obs.stack] using this
+  | .withI c body, st, hs => by
+      simp only [exec]
+      split
+      · exact ⟨[], rfl, by simp⟩
+      · next s1 h =>
+        have q1 : Q s1 := enter_closed hQ hs h
+        obtain ⟨new, hl, hq⟩ := exec_obs_invariant Q hQ env body { st with stack := s1 } q1
+        generalize exec env body { st with stack := s1 } = r at hl
+        obtain ⟨o, st2⟩ := r
+        simp only [] at hl ⊢
+        split <;> exact ⟨new, hl, hq⟩
+  | .deco c body, st, hs => by
+      simp only [exec]
+      split
+      · exact ⟨[], rfl, by simp⟩
+      · next s1 h =>
+        have q1 : Q s1 := enter_closed hQ hs h
+        obtain ⟨new, hl, hq⟩ := exec_obs_invariant Q hQ env body { st with stack := s1 } q1
+        generalize exec env body { st with stack := s1 } = r at hl
+        obtain ⟨o, st2⟩ := r
+        simp only [] at hl ⊢
+        split <;> exact ⟨new, hl, hq⟩
+  | .seq a b, st, hs => by
+      obtain ⟨new1, hl1, hq1⟩ := exec_obs_invariant Q hQ env a st hs
+      have hst := exec_restores_stack env a st
+      simp only [exec]
+      split
+      · next st1 h =>
+        rw [h] at hl1 hst
+        simp only [] at hl1 hst
+        obtain ⟨new2, hl2, hq2⟩ := exec_obs_invariant Q hQ env b st1 (by rw [hst]; exact hs)
+        refine ⟨new2 ++ new1, by rw [hl2, hl1, List.append_assoc], ?_⟩
+        intro o ho
+        rcases List.mem_append.mp ho with h' | h'
+        · exact hq2 o h'
+        · exact hq1 o h'
+      · next e st1 h =>
+        rw [h] at hl1
+        exact ⟨new1, hl1, hq1⟩
+  | .catch body, st, hs => by
+      obtain ⟨new, hl, hq⟩ := exec_obs_invariant Q hQ env body st hs
+      simp only [exec]
+      exact ⟨new, hl, hq⟩
+
+theorem prefix_enterClosed (s0 : Stack) : EnterClosed (fun s => s0 <+: s) := by
+  intro i s s' hs h
+  obtain ⟨x, rfl⟩ := enterI_push h
+  exact List.IsPrefix.trans hs (prefix_push x s)
+
+/-- **depth_never_below_base.**  While any program runs from stack `st.stack`, every stack that is
+    ever visible — at an observation point, or to a rule firing inside the temporary pushes of the
+    adjoint tape / of `substitute` — has `st.stack` as a prefix: nothing below the entry point is
+    ever popped or replaced. -/
+theorem depth_never_below_base (env : Env) (p : Prog) (st : St) :
+    ∃ new, (exec env p st).2.log = new ++ st.log ∧ ∀ o ∈ new, st.stack <+: o.stack :=
+  exec_obs_invariant (fun s => st.stack <+: s) (prefix_enterClosed st.stack) env p st
+    (List.prefix_refl _)
+
+/-- In particular the import-time base `[reflect, eager]` stays at the bottom, in place. -/
+theorem base_never_popped (env : Env) (p : Prog) (r e : I) (rest : Stack) (log : List Obs) :
+    ∃ new, (exec env p ⟨r :: e :: rest, log⟩).2.log = new ++ log ∧
+      ∀ o ∈ new, o.stack.take 2 = [r, e] ∧ 2 ≤ o.stack.length := by
+  obtain ⟨new, hl, hq⟩ := depth_never_below_base env p ⟨r :: e :: rest, log⟩
+  refine ⟨new, hl, fun o ho => ?_⟩
+  obtain ⟨t, ht⟩ := hq o ho
+  simp only [] at ht
+  rw [← ht]
+  simp
+
+
+/-! ### who interprets: the innermost context, partial ones falling through -/
+
+mutual
+/-- Well-formed objects: what a tape / a SubstituteInterpretation captured was total (true of anything
+    taken from a stack whose entries are total, see `stack_stays_total`), so their inner `with` cannot refuse. -/
+def WF : I → Bool
+  | .reflect => true
+  | .disp _ => true
+  | .prio _ l => allWF l
+  | .memo b => WF b
+  | .tape old => old.isTotal && WF old
+  | .subst _ b => b.isTotal && WF b
+def allWF : List I → Bool
+  | [] => true
+  | x :: xs => WF x && allWF xs
+end
+
+theorem enterI_total {i : I} (s : Stack) (h : i.isTotal = true) : enterI i s = .ok (push i s) := by
+  simp [enterI, h]
+
+/-- Entering a total object and leaving it again around a stack-restoring body. -/
+theorem withObj_total_eq {i : I} (s : Stack) (body : Stack → IRes) (h : i.isTotal = true)
+    (hb : (body (push i s)).stack = push i s) :
+    withObj i s body = ⟨(body (push i s)).out, s, (body (push i s)).fired⟩ := by
+  unfold withObj
+  rw [enterI_total s h]
+  simp only [hb, pop?_push]
+
+/-- AdjointTape.interpret when the captured interpretation is total: the probe is interpreted by the
+    captured one, under one temporary push for classes in `adjoint_ops`. -/
+theorem interp_tape_eq (env : Env) (k : K) (armed : Bool) (old : I) (s : Stack)
+    (ht : old.isTotal = true) :
+    interp env k armed (.tape old) s =
+      ⟨(interp env k armed old (if env.adjointOp k = true then push old s else s)).out, s,
+       (interp env k armed old (if env.adjointOp k = true then push old s else s)).fired⟩ := by
+  have e2 : ∀ s', withObj old s' (fun s1 => (⟨.normal, s1, none⟩ : IRes)) = ⟨.normal, s', none⟩ :=
+    fun s' => withObj_total_eq s' _ ht rfl
+  simp only [interp]
+  by_cases hadj : env.adjointOp k = true
+  · simp only [hadj, if_true]
+    rw [withObj_total_eq s _ ht (interp_stack env k armed old _)]
+    cases ho : (interp env k armed old (push old s)).out with
+    | normal => simp only [e2]
+    | exc e => simp only []
+  · simp only [hadj, if_false, Bool.false_eq_true]
+    cases ho : (interp env k armed old s).out with
+    | normal => simp only [e2, interp_stack]
+    | exc e =>
+      simp only []
+      rw [← ho]
+      have := interp_stack env k armed old s
+      cases hr : interp env k armed old s with
+      | mk o st f => rw [hr] at this; simp only [] at this; rw [this]
+
+/-- SubstituteInterpretation.interpret when its base is total. -/
+theorem interp_subst_eq (env : Env) (k : K) (armed : Bool) (live : Bool) (b : I) (s : Stack)
+    (ht : b.isTotal = true) :
+    interp env k armed (.subst live b) s =
+      match (interp env k armed b (push b s)).out with
+      | .normal =>
+        if (live && env.substK k) = true then
+          ⟨if armed = true then .exc .probe else .normal, s, some ("subst", push b s)⟩
+        else ⟨.normal, s, (interp env k armed b (push b s)).fired⟩
+      | .exc e => ⟨.exc e, s, (interp env k armed b (push b s)).fired⟩ := by
+  simp only [interp]
+  rw [withObj_total_eq s _ ht]
+  · cases ho : (interp env k armed b (push b s)).out with
+    | normal =>
+      simp only []
+      split
+      · simp [interp_stack]
+      · simp [ho]
+    | exc e => rw [ho]
+  · split
+    · split
+      · simp [interp_stack]
+      · exact interp_stack env k armed b _
+    · exact interp_stack env k armed b _
+
+mutual
+/-- **innermost_interprets (core).**  Whenever interpretation returns normally, the rule that
+    produced the value is `handler i` — a function of the interpretation object alone: not of the
+    stack below it, not of the temporary pushes. -/
+theorem interp_handler (env : Env) (k : K) (armed : Bool) :
+    ∀ (i : I) (s : Stack), WF i = true → (interp env k armed i s).out = .normal →
+      (interp env k armed i s).fired.map Prod.fst = handler env k i
+  | .reflect, s, _, _ => by simp [interp, handler]
+  | .disp n, s, _, _ => by
+      simp only [interp, handler]; split <;> rfl
+  | .prio _ l, s, hw, ho => by
+      simp only [interp] at ho
+      simp only [interp, handler]
+      exact interpList_handler env k armed l s (by simpa [WF] using hw) ho
+  | .memo b, s, hw, ho => by
+      simp only [interp] at ho
+      simp only [interp, handler]
+      exact interp_handler env k armed b s (by simpa [WF] using hw) ho
+  | .tape old, s, hw, ho => by
+      simp only [WF, Bool.and_eq_true] at hw
+      rw [interp_tape_eq env k armed old s hw.1] at ho ⊢
+      simp only [handler]
+      exact interp_handler env k armed old _ hw.2 ho
+  | .subst live b, s, hw, ho => by
+      simp only [WF, Bool.and_eq_true] at hw
+      rw [interp_subst_eq env k armed live b s hw.1] at ho ⊢
+      simp only [handler]
+      cases hb : (interp env k armed b (push b s)).out with
+      | normal =>
+        rw [hb] at ho
+        simp only []
+        split
+        · rfl
+        · exact interp_handler env k armed b _ hw.2 hb
+      | exc e => rw [hb] at ho; simp at ho
+theorem interpList_handler (env : Env) (k : K) (armed : Bool) :
+    ∀ (l : List I) (s : Stack), allWF l = true → (interpList env k armed l s).out = .normal →
+      (interpList env k armed l s).fired.map Prod.fst = handlerList env k l
+  | [], s, _, _ => by simp [interpList, handlerList]
+  | x :: xs, s, hw, ho => by
+      simp only [allWF, Bool.and_eq_true] at hw
+      simp only [interpList] at ho
+      simp only [interpList, handlerList]
+      split at ho
+      · next hon hfn =>
+        have ihx := interp_handler env k armed x s hw.1 hon
+        rw [hfn] at ihx
+        simp only [Option.map_none] at ihx
+        rw [← ihx]
+        rw [interp_stack] at ho ⊢
+        exact interpList_handler env k armed xs s hw.2 ho
+      · next hne =>
+        have ihx := interp_handler env k armed x s hw.1 ho
+        cases hf : (interp env k armed x s).fired with
+        | none => exact absurd hf (hne ho)
+        | some hfs =>
+          rw [hf] at ihx
+          simp only [Option.map_some] at ihx
+          rw [← ihx]
+          simp
+end
+
+
+mutual
+/-- Nothing raises by itself: with no armed probe, interpretation under well-formed objects returns. -/
+theorem interp_unarmed_normal (env : Env) (k : K) :
+    ∀ (i : I) (s : Stack), WF i = true → (interp env k false i s).out = .normal
+  | .reflect, s, _ => by simp [interp]
+  | .disp n, s, _ => by
+      simp only [interp]; split <;> simp
+  | .prio _ l, s, hw => by
+      simp only [interp]; exact interpList_unarmed_normal env k l s (by simpa [WF] using hw)
+  | .memo b, s, hw => by
+      simp only [interp]; exact interp_unarmed_normal env k b s (by simpa [WF] using hw)
+  | .tape old, s, hw => by
+      simp only [WF, Bool.and_eq_true] at hw
+      rw [interp_tape_eq env k false old s hw.1]
+      exact interp_unarmed_normal env k old _ hw.2
+  | .subst live b, s, hw => by
+      simp only [WF, Bool.and_eq_true] at hw
+      rw [interp_subst_eq env k false live b s hw.1, interp_unarmed_normal env k b _ hw.2]
+      simp only []
+      split <;> simp
+theorem interpList_unarmed_normal (env : Env) (k : K) :
+    ∀ (l : List I) (s : Stack), allWF l = true → (interpList env k false l s).out = .normal
+  | [], s, _ => by simp [interpList]
+  | x :: xs, s, hw => by
+      simp only [allWF, Bool.and_eq_true] at hw
+      simp only [interpList]
+      split
+      · rw [interp_stack]; exact interpList_unarmed_normal env k xs s hw.2
+      · exact interp_unarmed_normal env k x s hw.1
+end
+
+/-- **innermost_interprets.**  A term built while `i` is the innermost context is interpreted by
+    `handler i`, whatever contexts `s` enclose it (whenever the construction returns). -/
+theorem innermost_interprets (env : Env) (k : K) (armed : Bool) (s : Stack) (i : I) (log : List Obs)
+    (hw : WF i = true) (hn : (exec env (.probe k armed) ⟨s ++ [i], log⟩).1 = .normal) :
+    ∃ fs, (exec env (.probe k armed) ⟨s ++ [i], log⟩).2.log = .probe k (handler env k i) fs :: log := by
+  have ht : top? (s ++ [i]) = some i := by simp [top?]
+  simp only [exec, ht] at hn ⊢
+  have hh := interp_handler env k armed i (s ++ [i]) hw hn
+  cases hf : (interp env k armed i (s ++ [i])).fired with
+  | none => rw [hf] at hh; simp only [Option.map_none] at hh; exact ⟨s ++ [i], by rw [← hh]⟩
+  | some hfs =>
+    obtain ⟨h, fs⟩ := hfs
+    rw [hf] at hh; simp only [Option.map_some] at hh
+    exact ⟨fs, by rw [← hh]⟩
+
+/-- The with-block form: inside `with n:` for a total module-level interpretation `n`, an (unarmed)
+    probe is handled by `handler n`, independently of the enclosing stack, and the block restores it. -/
+theorem with_total_interprets (env : Env) (k : K) (n : String) (i : I) (st : St)
+    (hn : env.named n = some i) (ht : i.isTotal = true) (hw : WF i = true) :
+    ∃ fs, exec env (.withI (.named n) (.probe k false)) st =
+      (.normal, ⟨st.stack, .probe k (handler env k i) fs :: st.log⟩) := by
+  have he : enter env (.named n) st.stack = .ok (push i st.stack) := by
+    simp [enter, ctxObj, hn, enterI_total st.stack ht]
+  have htop : top? (push i st.stack) = some i := top?_push i st.stack
+  have hout := interp_unarmed_normal env k i (push i st.stack) hw
+  have hh := interp_handler env k false i (push i st.stack) hw hout
+  have hs := interp_stack env k false i (push i st.stack)
+  simp only [exec, he, htop, hout, hs, pop?_push]
+  cases hf : (interp env k false i (push i st.stack)).fired with
+  | none => rw [hf] at hh; simp only [Option.map_none] at hh; exact ⟨push i st.stack, by rw [← hh]⟩
+  | some hfs =>
+    obtain ⟨h, fs⟩ := hfs
+    rw [hf] at hh; simp only [Option.map_some] at hh
+    exact ⟨fs, by rw [← hh]⟩
+
+theorem handlerList_append (env : Env) (k : K) : ∀ (l1 l2 : List I),
+    handlerList env k (l1 ++ l2) =
+      match handlerList env k l1 with
+      | some h => some h
+      | none => handlerList env k l2
+  | [], l2 => by simp [handlerList]
+  | x :: xs, l2 => by
+      simp only [List.cons_append, handlerList]
+      cases handler env k x with
+      | some h => rfl
+      | none => exact handlerList_append env k xs l2
+
+theorem handlerList_subinterps (env : Env) (k : K) (x : I) :
+    handlerList env k x.subinterps = handler env k x := by
+  cases x with
+  | prio t l => simp [I.subinterps, handler]
+  | reflect => simp [I.subinterps, handlerList, handler]
+  | disp n => simp only [I.subinterps, handlerList]; cases handler env k (.disp n) <;> rfl
+  | memo b => simp only [I.subinterps, handlerList]; cases handler env k (.memo b) <;> rfl
+  | tape o => simp only [I.subinterps, handlerList]; cases handler env k (.tape o) <;> rfl
+  | subst l b => simp only [I.subinterps, handlerList]; cases handler env k (.subst l b) <;> rfl
+
+/-- **partial_falls_through.**  Entering a partial interpretation `i` while `t` is active makes the
+    active interpretation one that answers with `i`'s rule when it has one and otherwise exactly as
+    `t` did — at any depth of layering. -/
+theorem partial_falls_through (env : Env) (k : K) (i t : I) (s s' : Stack)
+    (hp : i.isTotal = false) (ht : top? s = some t) (h : enterI i s = .ok s') :
+    ∃ p, s' = push p s ∧
+      handler env k p = match handler env k i with
+        | some h => some h
+        | none => handler env k t := by
+  simp only [enterI, hp, ht, Bool.false_eq_true, if_false] at h
+  split at h
+  · cases h
+  · next p hm =>
+    refine ⟨p, by cases h; rfl, ?_⟩
+    unfold mkPrio at hm
+    simp only [List.flatMap_cons, List.flatMap_nil, List.append_nil] at hm
+    split at hm
+    · cases hm
+    · split at hm
+      · cases hm
+      · split at hm
+        · cases hm
+        · cases hm
+          simp only [handler]
+          rw [handlerList_append, handlerList_subinterps, handlerList_subinterps]
+
+/-- The special case of a single DispatchedInterpretation with rule table `env.rules n`. -/
+theorem partial_leaf_falls_through (env : Env) (k : K) (n : String) (t : I) (s s' : Stack)
+    (ht : top? s = some t) (h : enterI (.disp n) s = .ok s') :
+    ∃ p, s' = push p s ∧ handler env k p = if env.rules n k = true then some n else handler env k t := by
+  obtain ⟨p, hp, hh⟩ := partial_falls_through env k (.disp n) t s s' rfl ht h
+  refine ⟨p, hp, ?_⟩
+  rw [hh]
+  simp only [handler]
+  by_cases hr : env.rules n k = true <;> simp [hr]
+
+/-! ### refused entry -/
+
+/-- **enter_failure_leaves_stack.**  If `__enter__` raises (the `< 10` assertion, or any other), the
+    block's body does not run, nothing is logged, and the state is untouched. -/
+theorem enter_failure_leaves_stack (env : Env) (c : Ctx) (body : Prog) (st : St) (e : Err)
+    (h : enter env c st.stack = .error e) :
+    exec env (.withI c body) st = (.exc e, st) ∧ exec env (.deco c body) st = (.exc e, st) := by
+  simp [exec, h]
+
+/-- When the `< 10` assertion fires: layering `i` onto `t` would give 10 or more sub-interpretations. -/
+theorem enterI_overflow (i t : I) (s : Stack) (hp : i.isTotal = false) (ht : top? s = some t)
+    (hlen : 10 ≤ i.subinterps.length + t.subinterps.length) :
+    enterI i s = .error .assertOverflow := by
+  simp only [enterI, hp, ht, Bool.false_eq_true, if_false]
+  have : ¬ ((i.subinterps ++ t.subinterps).length < 10) := by simp; omega
+  have hne : (i.subinterps ++ t.subinterps).isEmpty = false := by
+    cases hl : i.subinterps ++ t.subinterps with
+    | nil => rw [hl] at this; simp at this
+    | cons _ _ => rfl
+  simp [mkPrio, hne, hlen]
+
+/-- …and only then. -/
+theorem enterI_overflow_only (i : I) (s : Stack) (h : enterI i s = .error .assertOverflow) :
+    ∃ t, top? s = some t ∧ i.isTotal = false ∧ 10 ≤ i.subinterps.length + t.subinterps.length := by
+  unfold enterI at h
+  split at h
+  · cases h
+  · next hp =>
+    split at h
+    · cases h
+    · next t ht =>
+      refine ⟨t, ht, by simpa using hp, ?_⟩
+      split at h
+      · next e hm =>
+        cases h
+        unfold mkPrio at hm
+        simp only [List.flatMap_cons, List.flatMap_nil, List.append_nil] at hm
+        split at hm
+        · cases hm
+        · split at hm
+          · next hl => simp at hl; omega
+          · split at hm <;> cases hm
+      · cases h
+
+/-- `__exit__` never swallows: a block's outcome is its body's outcome. -/
+theorem with_outcome_is_body_outcome (env : Env) (c : Ctx) (body : Prog) (st : St) (s1 : Stack)
+    (h : enter env c st.stack = .ok s1) :
+    (exec env (.withI c body) st).1 = (exec env body { st with stack := s1 }).1 := by
+  obtain ⟨x, rfl⟩ := enter_push h
+  have ih := exec_restores_stack env body { st with stack := push x st.stack }
+  simp only [exec, h]
+  generalize exec env body { st with stack := push x st.stack } = r at ih
+  obtain ⟨o, st2⟩ := r
+  simp only [] at ih ⊢
+  rw [ih, pop?_push]
+
+/-! ### every stack entry stays total (so `_STACK[-1].interpret` always answers) -/
+
+def AllTotal (s : Stack) : Prop := ∀ x ∈ s, x.isTotal = true
+
+theorem anyTotal_append : ∀ (l1 l2 : List I), anyTotal (l1 ++ l2) = (anyTotal l1 || anyTotal l2)
+  | [], l2 => by simp [anyTotal]
+  | x :: xs, l2 => by simp [anyTotal, anyTotal_append xs l2, Bool.or_assoc]
+
+theorem anyTotal_subinterps (x : I) : anyTotal x.subinterps = x.isTotal := by
+  cases x <;> simp [I.subinterps, anyTotal, I.isTotal]
+
+theorem allTotal_enterClosed : EnterClosed AllTotal := by
+  intro i s s' hs h
+  unfold enterI at h
+  split at h
+  · next ht =>
+    cases h
+    intro x hx
+    rcases List.mem_append.mp hx with hx | hx
+    · exact hs x hx
+    · simp at hx; rw [hx]; exact ht
+  · split at h
+    · cases h
+    · next t htop =>
+      split at h
+      · cases h
+      · next p hm =>
+        cases h
+        have htt : t.isTotal = true := hs t (List.mem_of_getLast? htop)
+        intro x hx
+        rcases List.mem_append.mp hx with hx | hx
+        · exact hs x hx
+        · simp at hx
+          rw [hx]
+          unfold mkPrio at hm
+          simp only [List.flatMap_cons, List.flatMap_nil, List.append_nil] at hm
+          split at hm
+          · cases hm
+          · split at hm
+            · cases hm
+            · split at hm
+              · cases hm
+              · cases hm
+                simp [I.isTotal, anyTotal_append, anyTotal_subinterps, htt]
+
+/-- If every entry of the initial stack is total (true of `[reflect, eager]`), every entry of every
+    stack ever observed is total: layering a partial interpretation always yields a total one. -/
+theorem stack_stays_total (env : Env) (p : Prog) (st : St) (h : AllTotal st.stack) :
+    ∃ new, (exec env p st).2.log = new ++ st.log ∧ ∀ o ∈ new, AllTotal o.stack :=
+  exec_obs_invariant AllTotal allTotal_enterClosed env p st h
+
 end FV.Props.C17
